@@ -65,6 +65,24 @@ C_MUTANTS = [
     ('C03', ['header:_cffi_from_c_int'], 'src/cffi/_cffi_include.h',
      '        (sizeof(type) < sizeof(long) ?                                   \\\n            PyLong_FromLong((long)x) :',
      '        (sizeof(type) <= sizeof(long) ?                                   \\\n            PyLong_FromLong((long)x) :'),
+    ('C04', ['cast_to_integer_or_char'], 'src/c/_cffi_backend.c',
+     '    if (ct->ct_flags & CT_IS_BOOL)\n        value = !!value;\n    cd = _new_casted_primitive(ct);',
+     '    if (ct->ct_flags & CT_IS_BOOL)\n        value = value & 1;\n    cd = _new_casted_primitive(ct);'),
+    ('C04', ['cast_to_integer_or_char'], 'src/c/_cffi_backend.c',
+     '        value = (Py_intptr_t)((CDataObject *)ob)->c_data;\n    }\n    else if (PyUnicode_Check(ob)) {',
+     '        value = (int)(Py_intptr_t)((CDataObject *)ob)->c_data;\n    }\n    else if (PyUnicode_Check(ob)) {'),
+    ('C04', ['cast_to_integer_or_char'], 'src/c/_cffi_backend.c',
+     '        value = _my_PyLong_AsUnsignedLongLong(ob, 0);\n        if (value == (unsigned PY_LONG_LONG)-1 && PyErr_Occurred())\n            return NULL;\n    }\n  got_value:',
+     '        value = _my_PyLong_AsUnsignedLongLong(ob, 1);\n        if (value == (unsigned PY_LONG_LONG)-1 && PyErr_Occurred())\n            return NULL;\n    }\n  got_value:'),
+    ('C04', ['cdata_int'], 'src/c/_cffi_backend.c',
+     '        value = (long)read_raw_signed_data(cd->c_data, cd->c_type->ct_size);\n        return PyLong_FromLong(value);',
+     '        value = (long)read_raw_unsigned_data(cd->c_data, cd->c_type->ct_size);\n        return PyLong_FromLong(value);'),
+    ('C04', ['_new_casted_primitive'], 'src/c/_cffi_backend.c',
+     '    cd->c_data = ((char*)cd) + dataoffset;\n    cd->c_weakreflist = NULL;\n    return cd;',
+     '    cd->c_data = ((char*)cd) + dataoffset - 8;\n    cd->c_weakreflist = NULL;\n    return cd;'),
+    ('C04', ['do_cast'], 'src/c/_cffi_backend.c',
+     '                return new_simple_cdata(cdsrc->c_data, ct);\n            }\n        }\n        if (PyCFunction_Check(ob)) {',
+     '                return new_simple_cdata(cdsrc->c_data, cdsrc->c_type);\n            }\n        }\n        if (PyCFunction_Check(ob)) {'),
     ('C03', ['export table'], 'src/c/_cffi_backend.c',
      '    _cffi_to_c_i32,\n    _cffi_to_c_u32,', '    _cffi_to_c_u32,\n    _cffi_to_c_i32,'),
 ]
